@@ -95,7 +95,7 @@ Example C27_nonvacuous :
   go_paid ex_round V3 1000000 = 999999.
 Proof. vm_compute. repeat split; reflexivity. Qed.
 
-(* A round without votes (fixed by /repo commit db109892): the expression
+(* A round without votes (fixed by /repo commit e94ecf06): the expression
    before the fix turned 0 * (x/0) = NaN into MinInt64; the repaired code pays
    the block-confirm rewards only and carries the rest forward. *)
 Example C27_zero_vote_round :
